@@ -56,7 +56,12 @@ class World:
         elif kind == "delete":
             model.delete_agent(op["id"])
         elif kind == "delete_many":
-            model.delete_agents(list(op["ids"]))
+            ids = list(op["ids"])
+            # any collection of ids will do (only membership is asked of it): a tuple, a set, a range, the keys of a dict
+            how = op.get("as", "list")
+            coll = {"list": ids, "tuple": tuple(ids), "set": set(ids), "frozenset": frozenset(ids), "keys": {i: None for i in ids}.keys(),
+                    "range": range(min(ids), max(ids) + 1) if ids and how == "range" else ids}[how]
+            model.delete_agents(coll)
         elif kind == "delete_then_touch":
             # the caller keeps the object, deletes the agent and then still writes to the object (agent code that marks itself
             # "dead" after removing itself does this): the registry only knows live agents
@@ -103,6 +108,9 @@ class ScriptAgent(Agent):
             self.set_property("x", {"type": "Double", "value": 0.5 * self.id - 1.0})
         if "n" not in self.properties:
             self.set_property("n", {"type": "Integer", "value": (self.id * 7) % 5 - 2})
+        if "x_2" not in self.properties:
+            # (property names are names: an underscore in one is part of it)
+            self.set_property("x_2", {"type": "Double", "value": 1.5 * self.id + 0.25})
         if self.id % 2 == 1 and "y" not in self.properties:
             # a numeric property that only SOME agents of a type carry (never the first one created)
             self.set_property("y", {"type": "Double", "value": 0.25 * self.id})
